@@ -54,6 +54,7 @@ func init() {
 			if err := json.Unmarshal(raw, &cs); err != nil {
 				return err
 			}
+			cs.keepSingleLevel = 1
 			c12CheckE2E(ctx, 0, &cs)
 			return nil
 		}
@@ -539,6 +540,8 @@ type c12E2E struct {
 	Query    string                 `json:"query"`
 	Vars     map[string]interface{} `json:"variables,omitempty"`
 	OpName   *string                `json:"operationName,omitempty"`
+
+	keepSingleLevel int // 0: drop if the plan has one level (generated runs); replays keep everything
 }
 
 func c12GenOptions() fed.GenOptions {
@@ -668,6 +671,18 @@ func c12CheckE2E(ctx *Ctx, idx int, cs *c12E2E) {
 		}
 		return doc.Operations[0]
 	}
+	// safe region: an operation in which one response name occurs at several places of the same
+	// request tree is resolved by a depth-first search by name in the executor (FindSelection) and
+	// loses insertion points — a stitching defect on C01's list, independent of the index map
+	if c12RepeatsResponseName(docE, pick(docE)) {
+		ctx.Rep.Count("e2e: a response name occurs twice in the operation (C01 FindSelection class; skipped)")
+		return
+	}
+	// an answer beyond ~60k objects costs minutes end to end; the size classes below that are covered
+	if n := (&fed.Eval{Schema: mr.Schema, Data: f.Data, Vars: cs.Vars}).CountNodes(pick(docE), 60000); n > 60000 {
+		ctx.Rep.Count("e2e: answer larger than 60k objects (skipped)")
+		return
+	}
 	var sp planner.SequentialPlanner
 	plan, perr := sp.Plan(&planner.PlanningContext{Operation: pick(docP), Request: &requests.Request{Query: cs.Query, Variables: cs.Vars, OperationName: cs.OpName},
 		Schema: mr.Schema, TypeURLMap: mr.TypeURLMap})
@@ -678,6 +693,9 @@ func c12CheckE2E(ctx *Ctx, idx int, cs *c12E2E) {
 	tree := c12PlanTree(plan.RootSteps)
 	levels := map[int]map[string]bool{}
 	maxDepth := c12Levels(tree, 0, levels)
+	if maxDepth == 0 && cs.keepSingleLevel == 0 {
+		return // generated run: two thirds of the single-level operations are dropped (budget goes to multi-level plans)
+	}
 	bound := map[string]int{}
 	for _, us := range levels {
 		for u := range us {
@@ -761,7 +779,20 @@ func c12CheckE2E(ctx *Ctx, idx int, cs *c12E2E) {
 			}
 		}
 	}
+	// every plan step that has at least one insertion point in the answer must have been looked
+	// up at its service (the id hint never skips here: the hinted type is the object's own type),
+	// and never more often than it has insertion points
+	if msg := c12StepLookups(plan.RootSteps, resp.Data, calls); msg != "" {
+		fail(msg)
+		return
+	}
 	if hx.Canon(resp.Data) != hx.Canon(want) || len(resp.Errors) != 0 {
+		// Name the failure mode: places that hold the same entity under the same selection have equal
+		// reference answers; if the gateway stitched different results into them the fan-out broke.
+		if msg := c12FanoutInconsistent(want, resp.Data); msg != "" {
+			fail("the same looked-up entity is stitched differently at different places: " + msg)
+			return
+		}
 		got := string(resp.Raw)
 		if len(got) > 600 {
 			got = got[:600] + "…"
@@ -770,7 +801,7 @@ func c12CheckE2E(ctx *Ctx, idx int, cs *c12E2E) {
 		if len(w) > 600 {
 			w = w[:600] + "…"
 		}
-		fail("response differs from the reference evaluator's answer: got " + got + " want " + w)
+		fail("response differs from the reference evaluator's answer (all places of one entity agree): got " + got + " want " + w)
 		return
 	}
 	// ---- model
@@ -809,6 +840,146 @@ func c12CheckE2E(ctx *Ctx, idx int, cs *c12E2E) {
 			}
 		}
 	}
+}
+
+func c12RepeatsResponseName(doc *ast.QueryDocument, op *ast.OperationDefinition) bool {
+	seen := map[string]bool{}
+	dup := false
+	var walk func(ss ast.SelectionSet)
+	walk = func(ss ast.SelectionSet) {
+		for _, sel := range ss {
+			switch v := sel.(type) {
+			case *ast.Field:
+				k := v.Alias
+				if k == "" {
+					k = v.Name
+				}
+				if k != "id" && k != "__typename" {
+					if seen[k] {
+						dup = true
+					}
+					seen[k] = true
+				}
+				walk(v.SelectionSet)
+			case *ast.InlineFragment:
+				walk(v.SelectionSet)
+			case *ast.FragmentSpread:
+				if v.Definition != nil {
+					walk(v.Definition.SelectionSet)
+				}
+			}
+		}
+	}
+	walk(op.SelectionSet)
+	return dup
+}
+
+// c12StepLookups checks, per (service, sub-query) of the non-root plan steps, that lookups were
+// sent iff the steps have insertion points in the answer, and never more than one per insertion point.
+func c12StepLookups(steps []*planner.QueryPlanStep, data interface{}, calls []*fed.Call) string {
+	type agg struct {
+		places int
+		paths  []string
+		dedup  bool
+	}
+	groups := map[string]*agg{}
+	var order []string
+	var walk func(steps []*planner.QueryPlanStep)
+	walk = func(steps []*planner.QueryPlanStep) {
+		for _, s := range steps {
+			if len(s.InsertionPoint) > 0 && !c12IsRoot(s.ParentType) {
+				k := s.URL + "|" + s.QueryString
+				if groups[k] == nil {
+					groups[k] = &agg{dedup: true}
+					order = append(order, k)
+				}
+				groups[k].places += c12Places(data, s.InsertionPoint)
+				groups[k].paths = append(groups[k].paths, strings.Join(s.InsertionPoint, "."))
+			}
+			walk(s.Then)
+		}
+	}
+	walk(steps)
+	for _, k := range order {
+		g := groups[k]
+		sent := 0
+		for _, c := range calls {
+			if fed.URL(c.Service)+"|"+c.Query == k {
+				sent++
+			}
+		}
+		if g.places > 0 && sent == 0 {
+			return fmt.Sprintf("the plan step(s) at %v have %d insertion point(s) but their query was never sent", g.paths, g.places)
+		}
+		if sent > g.places {
+			return fmt.Sprintf("the plan step(s) at %v: %d lookups sent for %d insertion point(s)", g.paths, sent, g.places)
+		}
+	}
+	return ""
+}
+
+// c12FanoutInconsistent: objects that are equal in the reference answer and sit at the same path
+// pattern (list indices erased) must be equal in the gateway's answer too.
+func c12FanoutInconsistent(want, got interface{}) string {
+	type seenT struct {
+		got  string
+		path string
+	}
+	groups := map[string]seenT{}
+	var msg string
+	var walk func(w, g interface{}, pattern, path string)
+	walk = func(w, g interface{}, pattern, path string) {
+		if msg != "" {
+			return
+		}
+		switch wv := w.(type) {
+		case []interface{}:
+			gl, _ := g.([]interface{})
+			for i, e := range wv {
+				var ge interface{}
+				if i < len(gl) {
+					ge = gl[i]
+				}
+				walk(e, ge, pattern+"[*]", fmt.Sprintf("%s[%d]", path, i))
+			}
+		case map[string]interface{}:
+			gm, _ := g.(map[string]interface{})
+			key := pattern + "=" + hx.Canon(wv)
+			gc := "<missing>"
+			if gm != nil {
+				gc = hx.Canon(gm)
+			}
+			if prev, ok := groups[key]; ok {
+				if prev.got != gc {
+					a, b := prev.got, gc
+					if len(a) > 300 {
+						a = a[:300] + "…"
+					}
+					if len(b) > 300 {
+						b = b[:300] + "…"
+					}
+					msg = fmt.Sprintf("%s holds %s but %s holds %s", prev.path, a, path, b)
+					return
+				}
+			} else {
+				groups[key] = seenT{gc, path}
+			}
+			keys := make([]string, 0, len(wv))
+			for k := range wv {
+				keys = append(keys, k)
+			}
+			sort.Strings(keys)
+			for _, k := range keys {
+				var gk interface{}
+				if gm != nil {
+					gk = gm[k]
+				}
+				walk(wv[k], gk, pattern+"."+k, path+"."+k)
+			}
+		}
+	}
+	walk(want, got, "", "")
+	return msg
 }
 
 // ---------------------------------------------------------------------------------------------
@@ -852,7 +1023,7 @@ func runC12(ctx *Ctx) error {
 		c12CheckStage(ctx, idx, cs)
 		idx++
 	}
-	nStage, maxN := 3000, 40
+	nStage, maxN := 6000, 40
 	if ctx.Thorough() {
 		nStage, maxN = 40000, 300
 	}
@@ -866,9 +1037,9 @@ func runC12(ctx *Ctx) error {
 		idx++
 	}
 	// ---- end to end
-	nFed := 150
+	nFed := 700
 	if ctx.Thorough() {
-		nFed = 900
+		nFed = 5000
 	}
 	for k := 0; k < nFed; k++ {
 		r := ctx.Rand.Fork()
@@ -892,6 +1063,9 @@ func runC12(ctx *Ctx) error {
 			}
 			cs := base
 			cs.Query, cs.Vars, cs.OpName = op.Query, op.Variables, op.OpName
+			if r.Chance(1, 3) {
+				cs.keepSingleLevel = 1
+			}
 			c12CheckE2E(ctx, idx, &cs)
 			idx++
 		}
